@@ -23,9 +23,14 @@
                    theorem about mrun covers histories containing bursts
      lrun          (Model.v) a LIVE history: ordinary operations and assignments
                    m.rate_limit = r / m.enable_adaptive = b on the live membrane;
-                   each decision comes with the rate_limit in force at the call *)
+                   each decision comes with the rate_limit in force at the call
+     handler, mfilter_h, hrun   (Model.v) on_threat as a function "does it raise on this
+                   result"; filter() with a handler; a live history in which every
+                   operation comes with the handler installed at that moment
+     icheck_h      InnateImmunity.check with an on_inflammation handler that may raise
+     keeps_rules / keeps_patterns   operations that install or remove no signature *)
 From Coq Require Import String ZArith List Bool.
-From Verif Require Import C10.Regex C10.RegexProofs C10.Model C10.Proofs C10.LiveProofs C10.Run.
+From Verif Require Import C10.Regex C10.RegexProofs C10.Model C10.Proofs C10.LiveProofs C10.HandlerProofs C10.Run.
 Import ListNotations.
 Open Scope Z_scope.
 
@@ -417,6 +422,77 @@ Theorem c10_live_reconfiguration :
   (forall cfg st g, c_adaptive cfg = false -> lstep cfg st (LOp (OLearn g)) = (cfg, st, None)).
 Proof. exact live_all. Qed.
 Print Assumptions c10_live_reconfiguration.
+
+(* CALLBACKS THAT RAISE.  The gates accept user callbacks (on_threat,
+   on_inflammation) and call them in the middle of their bookkeeping; a callback
+   may raise anything (an Exception, or a BaseException such as
+   KeyboardInterrupt), the caller may handle it and go on using the gate.
+   "The membrane keeps blocking an input it has blocked before even after rules
+   are relaxed" and "every decision is appended to the audit trail" are stated
+   of decisions, whatever the handler then does:
+   (1) a handler changes neither the state transition nor the decision of a call;
+   (2) when the handler's exception reaches the caller, the decision was a scan
+       block, it is the last entry of the audit trail, it is counted, and its
+       hash is in the replay memory;
+   (3) a history with handlers is the live history of its operations (so every
+       theorem about lrun / mrun speaks about it);
+   (4) an input blocked by a scan - the caller got the result OR the handler's
+       exception - is refused after every later history of operations,
+       assignments and handler behaviours, under every handler;
+   (5) innate: a raising on_inflammation leaves patterns and threshold alone (the
+       next check is judged by c10_allowed_sound as ever), it can only raise
+       after the inflammation state took the new level, and otherwise the
+       call is the plain check. *)
+Theorem c10_raising_handler_keeps_block :
+  (forall h cfg st c,
+     fst (mfilter_h h cfg st c) = fst (mfilter cfg st c) /\
+     fout_result (snd (mfilter_h h cfg st c)) = snd (mfilter cfg st c)) /\
+  (forall h cfg st c st' r,
+     mfilter_h h cfg st c = (st', FHandlerRaised r) ->
+     mfilter cfg st c = (st', r) /\ r_kind r = Scanned /\ r_allowed r = false /\ h r = true /\
+     m_audit st' = m_audit st ++ [r] /\ hmem (c_hash cfg c) (m_blocked st') = true /\
+     m_nblocked st' = m_nblocked st + 1) /\
+  (forall ops cfg st,
+     fst (hrun cfg st ops) = fst (lrun cfg st (map fst ops)) /\
+     map forget_handler (snd (hrun cfg st ops)) = snd (lrun cfg st (map fst ops))) /\
+  (forall h cfg st c st1 out,
+     mfilter_h h cfg st c = (st1, out) -> scan_blocked (fout_result out) = true ->
+     forall ops c' h', c_hash cfg c' = c_hash cfg c ->
+     r_allowed (fout_result (snd (mfilter_h h' (fst (fst (hrun cfg st1 ops))) (snd (fst (hrun cfg st1 ops))) c')))
+     = false) /\
+  (forall h cc vals st c,
+     i_pats (fst (icheck_h h cc vals st c)) = i_pats st /\
+     i_threshold (fst (icheck_h h cc vals st c)) = i_threshold st /\
+     (forall lvl, snd (icheck_h h cc vals st c) = CHandlerRaised lvl ->
+        exists r, snd (icheck cc vals st c) = IOk r /\ ir_level r = lvl /\ 0 < lvl /\ h lvl = true /\
+                  i_level (fst (icheck_h h cc vals st c)) = lvl) /\
+     (forall o, snd (icheck_h h cc vals st c) = CPlain o ->
+        icheck cc vals st c = (fst (icheck_h h cc vals st c), o))).
+Proof. exact handlers_all. Qed.
+Print Assumptions c10_raising_handler_keeps_block.
+
+(* EARLIER INPUTS LEAVE NO TRACE IN A SCAN.  "Allows an input only if no active
+   signature ... matches IT": the verdict is about the input now submitted, as a
+   value; whatever was submitted before - any number of inputs of any content
+   and length, clock ticks, threshold changes (membrane: filter / tick /
+   set_threshold / clear_audit_log; innate: every operation but add_pattern, any
+   validator lists) - a scan reports exactly the active signatures that match this
+   input and refuses it when one of them is at / above the threshold in force. *)
+Theorem c10_scan_history_free :
+  (forall cfg ops st c st' r,
+     forallb keeps_rules ops = true ->
+     mfilter cfg (fst (mrun cfg st ops)) c = (st', r) -> r_kind r = Scanned ->
+     r_matched r = scan (c_cc cfg) (active st) c /\
+     (forall g, In g (active st) -> sig_matches (c_cc cfg) g c = true ->
+        m_threshold (fst (mrun cfg st ops)) <= s_level g -> r_allowed r = false)) /\
+  (forall cc ops st vals c st' r,
+     forallb (fun p => keeps_patterns (snd p)) ops = true ->
+     icheck cc vals (irun cc st ops) c = (st', IOk r) ->
+     ir_matched r = scan cc (i_pats st) c /\
+     (forall g, In g (i_pats st) -> sig_matches cc g c = true ->
+        i_threshold (irun cc st ops) <= s_level g -> ir_allowed r = false)).
+Proof. exact history_free_all. Qed.
+Print Assumptions c10_scan_history_free.
 
 (* Every filter call appends exactly its own result to the audit list and
    every other operation except clear_audit_log leaves the list untouched;
